@@ -131,8 +131,46 @@ var propC14 = parserProp{
 
 func TestC14(t *testing.T) { propC14.run(t, Kinds) }
 
+// ---------------------------------------------------------------- C15
+
+var propC15 = parserProp{
+	prop:   "C15",
+	maxBuf: 200,
+	opts: func(kind string) histOpts {
+		o := defaultHistOpts()
+		o.readAt, o.byteAt = 8, 6
+		o.parseNil = 1
+		o.overReset = true
+		o.faults = true
+		o.resetDat = 2
+		o.readFrom = 8
+		if kind == "BUF" {
+			o.peekAt = 6
+		}
+		return o
+	},
+	classify: func(x *parserExec) ([]string, bool) {
+		var cl []string
+		if x.shrinkPos > 0 {
+			cl = append(cl, "shrink>0")
+		}
+		if x.shrinkPos > 0 && x.readsAfterShrink >= 2 {
+			cl = append(cl, "reads-after-shrink")
+		}
+		if x.readFromFull {
+			cl = append(cl, "readfrom-hit-capacity")
+		}
+		if x.resetWithCap > 0 {
+			cl = append(cl, "reset-with-cap")
+		}
+		return cl, (x.shrinkPos > 0 && x.readsAfterShrink >= 2) || x.readFromFull
+	},
+}
+
+func TestC15(t *testing.T) { propC15.run(t, append([]string{"BUF"}, Kinds...)) }
+
 func init() {
-	replayers["C01"] = propC01.replayer()
+	replayers["C15"] = propC15.replayer()
 	replayers["C02"] = propC02.replayer()
 	replayers["C03"] = propC03.replayer()
 	replayers["C14"] = propC14.replayer()
